@@ -749,3 +749,196 @@ class MonC10(Monitor):
 
 
 MONITORS["C10"] = MonC10
+
+
+# ==========================================================================
+class MonC07(Monitor):
+    """Phase references (virtual-Z) are additive and applied to every pulse."""
+
+    prop = "C07"
+
+    def begin(self, ls):
+        self.ghost = {}      # (basis, qid) -> sum of all shifts applied so far (unreduced float)
+
+    def pre(self, ls, op):
+        self.p = PreAux(ls, op)
+
+    def resync(self, ls):
+        for b, d in ls.real.seq._basis_ref.items():
+            for q, r in d.items():
+                self.ghost[(b, q)] = float(r.phase.last_phase)
+
+    def post(self, ls, st):
+        fails = []
+        op = st.op
+        k = op["k"]
+        seq = ls.real.seq
+        # references of newly addressed bases start at 0
+        for b, d in seq._basis_ref.items():
+            for q in d:
+                self.ghost.setdefault((b, q), 0.0)
+        if st.real[0] != "ok":
+            return fails
+        uses_drift = bool(op.get("corr")) and k in ("addeom", "eomon", "eommod", "eomoff")
+        name = real_name(op["ch"]) if "ch" in op and op.get("ch") else None
+        pre = self.p.aux.get(name) if name else None
+        if k == "shift":
+            qs = [ls.dev.qids[i] for i in op["qs"]] or list(ls.dev.qids)
+            for q in qs:
+                self.ghost[(op["basis"], q)] += float(op["phi"])
+            # basis separation: other bases untouched
+            for b, d in self.p.refs.items():
+                if b == op["basis"]:
+                    continue
+                for q, (ts, phs, used) in d.items():
+                    now = seq._basis_ref[b][q].phase
+                    if list(now._times) != ts or [float(x) for x in now._phases] != phs:
+                        fails.append(self.F("basis-separation", f"shift in {op['basis']} changed the reference of {q} in {b}", op=k))
+        if k in ("add", "addeom", "adddmm") and pre is not None and pre["slots"]:
+            ch = pre["ch"]
+            basis = ch.basis
+            targets = pre["slots"][-1][3]
+            new, _ = new_slots(st, op["ch"])
+            pulses = [s for s in new if s["k"] == "P"]
+            if pulses and not isinstance(ch, DMM):
+                ps = pulses[-1]
+                # barrier: never before the latest phase shift of its targets
+                B = max(self.p.refs[basis][q][0][-1] for q in targets)
+                if ps["ti"] < B:
+                    fails.append(self.F("barrier", f"pulse starts at {ps['ti']} before the latest phase shift of its targets at {B}", op=k))
+                # scheduled phase = programmed phase + reference of its targets when it was added
+                if not uses_drift:
+                    prog = float(op["pulse"]["phase"]) if k == "add" else float(op["phase"])
+                    refs = {self.p.refs[basis][q][1][-1] for q in targets}
+                    ref = refs.pop()
+                    got = float(Fraction(ps["ph"]))
+                    if refs or not mod2pi_close(got, prog + ref, 1e-9):
+                        fails.append(self.F("pulse-phase", f"scheduled phase {got} != programmed {prog} + reference {ref} (mod 2pi)", op=k))
+                post_shift = float(op["pulse"].get("post", 0.0)) if k == "add" else float(op.get("post", 0.0))
+                if not uses_drift:
+                    for q in targets:
+                        self.ghost[(basis, q)] += post_shift
+        if uses_drift:
+            self.resync(ls)      # the drift amount is computed by the library; C15 owns it
+            return fails
+        # additivity: every current reference equals the sum of the shifts applied, mod 2pi
+        for (b, q), tot in self.ghost.items():
+            if b not in seq._basis_ref:
+                continue
+            cur = float(seq._basis_ref[b][q].phase.last_phase)
+            if not mod2pi_close(cur, tot, 1e-7):
+                fails.append(self.F("additive", f"reference of {q} in {b} is {cur}, sum of shifts is {tot % TWO_PI}", op=k))
+                self.ghost[(b, q)] = cur
+            if not (0.0 <= cur < TWO_PI + 1e-12):
+                fails.append(self.F("range", f"reference {cur} outside [0, 2pi)", op=k))
+        with warnings.catch_warnings():
+            warnings.simplefilter("ignore")
+            if not seq.is_parametrized():
+                for b in seq._basis_ref:
+                    for q in ls.dev.qids[:2]:
+                        api = seq.current_phase_ref(q, b)
+                        if api != float(seq._basis_ref[b][q].phase.last_phase):
+                            fails.append(self.F("api", "current_phase_ref differs from the tracker", op=k))
+        return fails
+
+
+MONITORS["C07"] = MonC07
+
+
+class MonC15(Monitor):
+    """EOM mode: square pulses, physical off-detuning, buffers."""
+
+    prop = "C15"
+
+    def pre(self, ls, op):
+        self.p = PreAux(ls, op) if op["k"] in ("eomon", "eommod", "eomoff", "addeom", "delay") else None
+
+    def post(self, ls, st):
+        fails = []
+        op = st.op
+        k = op["k"]
+        seq = ls.real.seq
+        # (a) inside every EOM block: only EOM pulses at the block's setpoint or detuned delays
+        for name, sch in seq._schedule.items():
+            if not sch.eom_blocks:
+                continue
+            end = sch.slots[-1].tf if sch.slots else 0
+            for b in sch.eom_blocks:
+                b_end = end if b.tf is None else b.tf
+                for s in sch.slots:
+                    if s.ti < b.ti or s.ti >= b_end or s.ti == -1:
+                        continue
+                    if isinstance(s.type, Pulse):
+                        p = s.type
+                        amp = p.amplitude.samples.as_array(detach=True)
+                        det = p.detuning.samples.as_array(detach=True)
+                        square = np.all(amp == amp[0]) and np.all(det == det[0])
+                        is_on = square and amp[0] == float(b.rabi_freq) and det[0] == float(b.detuning_on)
+                        is_off = square and amp[0] == 0.0 and det[0] == float(b.detuning_off)
+                        if not (is_on or is_off):
+                            fails.append(self.F("eom-pulse-not-setpoint", f"{name}: pulse at {s.ti} in EOM block "
+                                                f"[{b.ti},{b.tf}) has amp {amp[0]}, det {det[0]} (setpoint {float(b.rabi_freq)}, "
+                                                f"{float(b.detuning_on)}, off {float(b.detuning_off)})", op=k))
+                    elif s.type == "delay" and float(b.detuning_off) != 0.0 and s.tf > s.ti:
+                        fails.append(self.F("eom-idle-not-detuned", f"{name}: plain delay [{s.ti},{s.tf}) inside an EOM block with detuning_off {float(b.detuning_off)}", op=k))
+        if self.p is None or st.real[0] != "ok":
+            return fails
+        name = real_name(op["ch"])
+        sch = seq._schedule.get(name)
+        pre = self.p.aux.get(name)
+        if sch is None or pre is None:
+            return fails
+        ch = sch.channel_obj
+        new, n0 = new_slots(st, op["ch"])
+        if k in ("eomon", "eommod"):
+            b = sch.eom_blocks[-1]
+            # (b) the off detuning is the allowed option closest to the requested optimum
+            opts = ch.eom_config.detuning_off_options(op["amp"], op["det_on"]).as_array(detach=True)
+            chosen = float(b.detuning_off)
+            if not np.any(opts == chosen):
+                fails.append(self.F("detuning-off-not-allowed", f"detuning_off {chosen} not among the options {list(opts)}", op=k))
+            best = np.min(np.abs(opts - op.get("optimal", 0.0)))
+            if abs(chosen - op.get("optimal", 0.0)) > best + 1e-9:
+                fails.append(self.F("detuning-off-not-closest", f"chose {chosen}, closest option is at distance {best}", op=k))
+            if float(b.rabi_freq) != float(op["amp"]) or float(b.detuning_on) != float(op["det_on"]):
+                fails.append(self.F("setpoint", "EOM block does not carry the requested setpoint", op=k))
+            # (c) buffers: non-empty channel -> (fall wait,) then a buffer of adjust(buffer_time)
+            t0 = pre["end"]
+            if t0 > 0:
+                want_buf = least_valid_gap(ch, ch._eom_buffer_time)
+                fall_wait = 0
+                if k == "eomon":
+                    fall = end_with_fall(pre) - t0
+                    fall_wait = least_valid_gap(ch, fall) if fall > 0 else 0
+                got = b.ti - t0
+                if got != fall_wait + want_buf:
+                    fails.append(self.F("enable-buffer", f"block starts {got} after the channel end, expected fall wait {fall_wait} + buffer {want_buf}", op=k))
+            elif b.ti != t0:
+                fails.append(self.F("enable-buffer", "buffer inserted on an empty channel", op=k))
+        if k == "eomoff":
+            b = sch.eom_blocks[-1]
+            t0 = pre["end"]
+            if b.tf != t0:
+                fails.append(self.F("block-end", f"block closed at {b.tf}, channel end was {t0}", op=k))
+            after = sch.slots[-1].tf - t0
+            if ch.eom_config.custom_buffer_time:
+                want = least_valid_gap(ch, ch._eom_buffer_time)
+            else:
+                # fall wait evaluated outside EOM mode (the block is closed first)
+                a2 = dict(pre, in_eom=False)
+                fall = end_with_fall(a2) - t0
+                want = least_valid_gap(ch, fall) if fall > 0 else 0
+            if after != want:
+                fails.append(self.F("disable-buffer", f"{after} ns appended after the block, expected {want}", op=k))
+        # (d) blocks are disjoint, ordered, last one open iff in EOM mode
+        prev_end = None
+        for i, b in enumerate(sch.eom_blocks):
+            if prev_end is not None and b.ti < prev_end:
+                fails.append(self.F("blocks-overlap", f"block {i} starts at {b.ti} before the previous one ended at {prev_end}", op=k))
+            if b.tf is None and i != len(sch.eom_blocks) - 1:
+                fails.append(self.F("blocks-open", f"block {i} is open but not last", op=k))
+            prev_end = b.tf if b.tf is not None else prev_end
+        return fails
+
+
+MONITORS["C15"] = MonC15
